@@ -1,7 +1,5 @@
 // temporary stubs
 #include "sim.hpp"
-RunResult run_c11(const RunSpec &) { RunResult r; return r; }
-RunResult run_c15(const RunSpec &) { RunResult r; return r; }
 RunResult eng_value_run(const RunSpec &) { RunResult r; return r; }
 RunResult eng_walk_run(const RunSpec &) { RunResult r; return r; }
 RunResult eng_mix_run(const RunSpec &) { RunResult r; return r; }
